@@ -14,18 +14,25 @@ R2 wrapper shape of `recoverable`: the decorator returns the nested wrapper; the
    `func(*args, **kwargs)`; CancelledError / KeyboardInterrupt / other BaseExceptions and every
    `UnrecoverableWorkflowException` leave without `recover`; every other `Exception` reaches
    `await failure_manager.recover(job, step, e)` (job/step picked by isinstance on Job/Step, e the
-   caught exception); normal completion never calls recover; a failure of recover propagates.
+   caught exception); normal completion never calls recover; a failure of recover propagates; a ValueError of
+   the look-ups is raised only where the dominating tests leave one look-up variable (a local defined by an
+   isinstance selection on Job / Step) None - nested fallbacks, flat guard clauses over a chained search and
+   truthiness tests alike.
 R3 assembly order in `_recover` (CFG dominance, helpers extracted from `_recover` are followed):
    build_graph < create_graph_mapper < lock acquisition < _synchronize_workflows <
    _populate_workflow < _inject_tokens < restore of every step (loop / gather over `<wf>.steps`,
    no skip/break) < save < executor.run; all stages work on the one workflow object obtained from
    `WorkflowBuilder.load_workflow`; the provenance search starts from the failed job's inputs, its
-   job token and the connector tokens (generators filtered by port class); `_recover` raises only
+   job token and the connector tokens (generators filtered by port class; a list assembled by an extracted
+   helper is read through the helper's return expressions, the failed job being the parameter bound to it);
+   `_recover` raises only
    under an emptiness test; the retry delay is slept only when configured.
 R4 stateful steps restore their state: ScatterStep / LoopCombinatorStep / DefaultTransformer define a
    non-trivial `restore` (LoopCombinatorStep forwards to `combinator.restore`, LoopCombinator
    rebuilds `iteration_map`; ScatterStep installs a FilterTokenPort); `restore` is given the
-   *unavailable* tokens while `_inject_tokens` injects the *available* ones; `_inject_tokens`
+   *unavailable* tokens while `_inject_tokens` injects the *available* ones (the selection is a comprehension
+   filter or the dominating test of the `append` of the equivalent loop; conditional expression or if statement);
+   `_inject_tokens`
    installs a PROPAGATE rule towards the failed step's original output port and a TERMINATE rule on
    the recovery port, both keyed by the failed job's tag, always together and exactly for the
    inter-workflow ports bound to the failed step's outputs (facts of the dominating tests); every
@@ -92,6 +99,7 @@ from ._util_D import (
     guard_free_atoms,
     guard_walk,
     has_fact,
+    helper_views,
     implies_empty,
     implied,
     is_awaited,
@@ -277,6 +285,35 @@ def r2(ctx):
         _check_wrapper(ctx, w, fparam)
 
 
+def _none_fact(e, v):
+    """(variable, it is None / falsy) when the fact `e evaluates to v` speaks about a local: `x is None`,
+    `(x := ..) is not None`, `None == x`, bare `x` / `(x := ..)` (truthiness: a Job / Step object is truthy)."""
+
+    def var(x):
+        if isinstance(x, ast.NamedExpr):
+            return x.target.id
+        return x.id if isinstance(x, ast.Name) else None
+
+    if isinstance(e, ast.Compare) and len(e.ops) == 1 and isinstance(e.ops[0], (ast.Is, ast.IsNot, ast.Eq, ast.NotEq)):
+        for x, c in ((e.left, e.comparators[0]), (e.comparators[0], e.left)):
+            if isinstance(c, ast.Constant) and c.value is None and var(x) is not None:
+                return var(x), (v if isinstance(e.ops[0], (ast.Is, ast.Eq)) else (not v))
+    if var(e) is not None:
+        return var(e), (not v)
+    return None, None
+
+
+def _is_lookup_var(p, w, name) -> bool:
+    """Every definition of local `name` of the wrapper selects an argument by isinstance on Job / Step."""
+    ds = defs_of(w, name)
+
+    def isinst(n):
+        return (isinstance(n, ast.Call) and isinstance(n.func, ast.Name) and n.func.id == "isinstance" and len(n.args) == 2
+                and p.resolve_expr(w.module, n.args[1]) in (JOB, STEP_CLS))
+
+    return bool(ds) and all(d.value is not None and any(isinst(x) for x in ast.walk(d.value)) for d in ds)
+
+
 def _check_wrapper(ctx, w, fparam):
     p = ctx.prog
     g = w.cfg
@@ -293,16 +330,21 @@ def _check_wrapper(ctx, w, fparam):
     )
     ctx.ob("R2", "wrapper awaits func(*args, **kwargs)", is_awaited(call) and forwards, func=w, node=call, instance="forward",
            message=f"the wrapped phase is invoked as `{unparse(parent(call) if is_awaited(call) else call)}`")
-    # the job / step look-ups: the fallback search and the ValueError only when nothing was found
+    # the job / step look-ups: the ValueError only when one of the look-ups found nothing.  The facts of the
+    # dominating tests are grouped by the look-up variable they speak about (a local whose every definition
+    # selects by isinstance on Job / Step): the raise is justified by a variable that every such fact leaves
+    # None; what is known about the *other* look-up (e.g. `step` was found, flat guard clauses) is irrelevant.
     for n in g.nodes.values():
         if n.kind == "raise_stmt" and not any(isinstance(a, ast.ExceptHandler) for a in ancestors(n.ast)):
             if n.id in g.reach(g.node_containing(call), kinds=ALL):
                 continue  # raised after the wrapped call: not a look-up guard
-            facts = path_facts(g, n.id)
-            nones = [v for e, v in facts if isinstance(e, ast.Compare) and len(e.ops) == 1 and isinstance(e.ops[0], (ast.Is, ast.IsNot))
-                     and isinstance(e.comparators[0], ast.Constant) and e.comparators[0].value is None
-                     for v in [v if isinstance(e.ops[0], ast.Is) else (not v)]]
-            ctx.ob("R2", "the wrapper rejects a call only when no Job / Step argument was found", bool(nones) and all(nones), func=w, node=n.ast,
+            by_var: dict[str, list[bool]] = {}
+            for e, v in path_facts(g, n.id):
+                var, is_none = _none_fact(e, v)
+                if var is not None and _is_lookup_var(p, w, var):
+                    by_var.setdefault(var, []).append(is_none)
+            missing = sorted(k for k, vs in by_var.items() if all(vs))
+            ctx.ob("R2", "the wrapper rejects a call only when no Job / Step argument was found", bool(missing), func=w, node=n.ast,
                    instance=f"lookup-guard:{unparse(n.ast)[:50]}",
                    message="the Job/Step look-up of the wrapper raises (or falls back) although an argument was found: every decorated phase fails")
     tr = None
@@ -501,27 +543,38 @@ def r3(ctx):
         b = bind_args(bg.node, c) or {}
         e = b.get("inputs")
         who = fjob if h is f else None
-        has_inputs = e is not None and who is not None and mentions(
-            h, e, lambda n: isinstance(n, ast.Attribute) and n.attr == "inputs" and isinstance(n.value, ast.Name) and n.value.id == who)
-        has_job = e is not None and who is not None and mentions(
-            h, e, lambda n: isinstance(n, ast.Call) and resolves_to(p, h, n, ["streamflow.workflow.utils.get_job_token"], attr_fallback=False)
-            and any(isinstance(x, ast.Attribute) and x.attr == "name" and isinstance(x.value, ast.Name) and x.value.id == who for a in n.args for x in [a, *ast.walk(a)]))
         if who is None:
             ctx.require(False, "C16.R3: build_graph is called from a helper: cannot identify the failed job's inputs")
+        # the argument as written, and - when the list is assembled by an extracted helper - the helper's return
+        # expressions with the failed job translated to the parameter that receives it
+        views = helper_views(p, h, e, {"job": who}) if e is not None else []
+
+        def _inputs_of(hf, ex, wj):
+            return wj is not None and mentions(
+                hf, ex, lambda n: isinstance(n, ast.Attribute) and n.attr == "inputs" and isinstance(n.value, ast.Name) and n.value.id == wj)
+
+        def _job_token_of(hf, ex, wj):
+            return wj is not None and mentions(
+                hf, ex, lambda n: isinstance(n, ast.Call) and resolves_to(p, hf, n, ["streamflow.workflow.utils.get_job_token"], attr_fallback=False)
+                and any(isinstance(x, ast.Attribute) and x.attr == "name" and isinstance(x.value, ast.Name) and x.value.id == wj for a in n.args for x in [a, *ast.walk(a)]))
+
+        has_inputs = any(_inputs_of(hf, ex, roles.get("job")) for hf, ex, roles in views)
+        has_job = any(_job_token_of(hf, ex, roles.get("job")) for hf, ex, roles in views)
         # the extra tokens come from connector ports / job ports only
         filt_ok = True
-        for o in origins(h, e) if e is not None else []:
-            for gen in [x for x in ast.walk(o) if isinstance(x, (ast.GeneratorExp, ast.ListComp))]:
-                elt = strip(gen.elt)
-                want = None
-                if isinstance(elt, ast.Subscript) and isinstance(elt.value, ast.Attribute) and elt.value.attr == "token_list":
-                    want = "streamflow.workflow.port.ConnectorPort"
-                elif isinstance(elt, ast.Call) and resolves_to(p, h, elt, ["streamflow.workflow.utils.get_job_token"], attr_fallback=False):
-                    want = "streamflow.workflow.port.JobPort"
-                if want is not None:
-                    filt_ok = filt_ok and any(
-                        v is True and isinstance(x, ast.Call) and isinstance(x.func, ast.Name) and x.func.id == "isinstance" and len(x.args) == 2
-                        and p.resolve_expr(h.module, x.args[1]) == want for cond in gen.generators[0].ifs for x, v in implied(cond, True))
+        for hf, ex, _roles in views:
+            for o in origins(hf, ex):
+                for gen in [x for x in ast.walk(o) if isinstance(x, (ast.GeneratorExp, ast.ListComp))]:
+                    elt = strip(gen.elt)
+                    want = None
+                    if isinstance(elt, ast.Subscript) and isinstance(elt.value, ast.Attribute) and elt.value.attr == "token_list":
+                        want = "streamflow.workflow.port.ConnectorPort"
+                    elif isinstance(elt, ast.Call) and resolves_to(p, hf, elt, ["streamflow.workflow.utils.get_job_token"], attr_fallback=False):
+                        want = "streamflow.workflow.port.JobPort"
+                    if want is not None:
+                        filt_ok = filt_ok and any(
+                            v is True and isinstance(x, ast.Call) and isinstance(x.func, ast.Name) and x.func.id == "isinstance" and len(x.args) == 2
+                            and p.resolve_expr(hf.module, x.args[1]) == want for cond in gen.generators[0].ifs for x, v in implied(cond, True))
         has_inputs = has_inputs and filt_ok
         ctx.ob("R3", "build_graph starts from the failed job's input tokens and its job token", has_inputs and has_job, func=h, node=c, instance="build_graph:inputs",
                message=f"the provenance search does not start from failed_job.inputs (found={has_inputs}) and the job token (found={has_job}): lost inputs are not regenerated")
@@ -660,18 +713,47 @@ def _trivial_body(fn) -> bool:
     return True
 
 
-def _availability_polarity(f, root) -> list[tuple[ast.AST, bool | None]]:
+def _availability_polarity(f, root, _seen=None) -> list[tuple[ast.AST, bool | None]]:
     """For every comprehension filter below `root` that reads `<x>.token_availability[...]`:
     (filter expr, value of the availability entry forced by a passing filter)."""
     out = []
     for n in [root, *ast.walk(root)]:
         if isinstance(n, ast.comprehension):
             for cond in n.ifs:
-                subs = [x for x in [cond, *ast.walk(cond)] if isinstance(x, ast.Subscript) and isinstance(x.value, ast.Attribute)
-                        and x.value.attr == "token_availability"]
+                subs = [x for x in [cond, *ast.walk(cond)] if _is_avail(x)]
                 for s in subs:
                     forced = [v for e, v in implied(cond, True) if e is s]
                     out.append((cond, forced[0] if forced else None))
+    # the same selection written as a loop: a list / set local mentioned below `root` that is filled by
+    # `<local>.append(..)` / `.add(..)`; the facts of the tests dominating the feeding call are the filter
+    # (an unguarded feed selects nothing: value None)
+    seen = _seen if _seen is not None else set()
+    for n in [root, *ast.walk(root)]:
+        if not (isinstance(n, ast.Name) and isinstance(n.ctx, ast.Load)) or n.id in seen:
+            continue
+        seen.add(n.id)
+        for c, facts in _feeds(f, n.id):
+            forced = [v for e, v in facts if _is_avail(e)]
+            out.append((c, forced[0] if forced else None))
+        for d in defs_of(f, n.id):
+            if d.kind == "assign" and d.index is None and d.value is not None and seen is not None and len(seen) < 12:
+                out += _availability_polarity(f, d.value, seen)
+    return out
+
+
+def _is_avail(x) -> bool:
+    return isinstance(x, ast.Subscript) and isinstance(x.value, ast.Attribute) and x.value.attr == "token_availability"
+
+
+def _feeds(f, name):
+    """[(call, facts)] for every `<name>.append(x)` / `.add(x)` / `.insert(i, x)` of the function: the facts are
+    those of the tests that dominate the call (one outcome only)."""
+    g = f.cfg
+    out = []
+    for c in f.calls():
+        if isinstance(c.func, ast.Attribute) and c.func.attr in ("append", "add", "insert", "appendleft") and isinstance(c.func.value, ast.Name) \
+                and c.func.value.id == name and c.args:
+            out.append((c, [x for i in g.node_containing(c) for x in path_facts(g, i)]))
     return out
 
 
@@ -868,13 +950,17 @@ def r4(ctx):
            node=(others[0][0] if others else f.node), instance="boundary:others", message=msg)
     # token_list is built from the mapped tokens of the port / the duplicate-tag guard aborts only on duplicates
     comp_ok = None
-    for n in f.body_nodes():
-        if isinstance(n, ast.comprehension) and any(isinstance(x, ast.Subscript) and isinstance(x.value, ast.Attribute) and x.value.attr == "token_availability"
-                                                     for cond in n.ifs for x in ast.walk(cond)):
-            comp = parent(n)
-            m_ = membership_fact(expr_facts(comp) + [x for a in ancestors(comp) if isinstance(a, ast.Call) for x in expr_facts(a)],
-                                 lambda e: isinstance(e, ast.Name), lambda e: mentions(f, e, lambda k: isinstance(k, ast.Attribute) and k.attr == "port_tokens", depth=0))
-            comp_ok = m_ is not False if comp_ok is None else (comp_ok and m_ is not False)
+    # sites where the available tokens of a port are selected: a comprehension filtered by token_availability, or the
+    # feeding call of the equivalent loop (`<list>.append(..)` under a token_availability test); what is known there
+    # comes from the enclosing conditional expressions *and* from the dominating if statements (CFG)
+    sel_sites = [parent(n) for n in f.body_nodes() if isinstance(n, ast.comprehension) and any(_is_avail(x) for cond in n.ifs for x in ast.walk(cond))]
+    sel_sites += [c for c in f.calls() if isinstance(c.func, ast.Attribute) and c.func.attr in ("append", "add", "insert", "appendleft") and c.args
+                  and any(_is_avail(e) for i in g.node_containing(c) for e, _v in path_facts(g, i))]
+    for comp in sel_sites:
+        facts = expr_facts(comp) + [x for a in ancestors(comp) if isinstance(a, ast.Call) for x in expr_facts(a)]
+        facts += [x for i in g.node_containing(comp) for x in path_facts(g, i)]
+        m_ = membership_fact(facts, lambda e: isinstance(e, ast.Name), lambda e: mentions(f, e, lambda k: isinstance(k, ast.Attribute) and k.attr == "port_tokens", depth=0))
+        comp_ok = m_ is not False if comp_ok is None else (comp_ok and m_ is not False)
     ctx.ob("R4", "mapped ports inject their available tokens (the conditional around the token list is not inverted)", bool(comp_ok), func=f, node=f.node,
            instance="inject:mapped", message="the token list is built only for ports that are NOT in mapper.port_tokens: nothing is injected")
     for n in g.nodes.values():
@@ -1188,6 +1274,17 @@ _UPD = f"{RFM}._update_request"
 _ON_TOKENS = ("{port.name: [mapper.token_instances[token_id] for token_id in mapper.port_tokens[port.name] if not mapper.token_availability[token_id]] "
               "for port in step.get_output_ports().values() if port.name in mapper.port_tokens.keys()}")
 
+_STEP_LOOKUP = ("        if (step := next((arg for arg in args if isinstance(arg, Step)), None)) is None:\n"
+                "            if (step := next((arg for arg in kwargs.values() if isinstance(arg, Step)), None)) is None:\n"
+                "                raise ValueError('The wrapped function must take a `Step` object as argument')\n")
+_PROV_INPUTS = ("*failed_job.inputs.values(), *(p.token_list[0] for p in failed_step.get_input_ports().values() if isinstance(p, ConnectorPort)), "
+                "*(get_job_token(failed_job.name, p.token_list) for p in failed_step.get_input_ports().values() if isinstance(p, JobPort))")
+_TOKEN_LIST = ("        token_list = sorted([mapper.token_instances[token_id] for token_id in mapper.port_tokens[port_name] if mapper.token_availability[token_id]], "
+               "key=lambda x: x.tag) if port_name in mapper.port_tokens.keys() else ()\n")
+_TOKEN_LIST_LOOP = ("        if %s:\n            available_tokens = []\n            for token_id in mapper.port_tokens[port_name]:\n                if %s:\n"
+                    "                    available_tokens.append(mapper.token_instances[token_id])\n            token_list = sorted(available_tokens, key=lambda x: x.tag)\n"
+                    "        else:\n            token_list = ()\n")
+
 VARIANTS = [
     # ---- R1
     V("@recoverable removed from _run_transfer", STEP_FILE, f"{STEP}.TransferStep._run_transfer", "@recoverable\nasync def _run_transfer", "async def _run_transfer", "R1", control=True),
@@ -1317,6 +1414,37 @@ VARIANTS = [
       "        await new_workflow.save(new_workflow.context.database)\n        executor = StreamFlowExecutor(new_workflow)\n        await executor.run()\n",
       "        await self._execute(new_workflow)\n\n    async def _execute(self, wf: Workflow) -> None:\n        await wf.save(wf.context.database)\n        executor = StreamFlowExecutor(wf)\n        await executor.run()\n", None),
     V("keyword call of the phase", STEP_FILE, f"{STEP}.ExecuteStep._run_job", "await self._execute_command(job, connectors)", "await self._execute_command(job=job, connectors=connectors)", None),
+    # ---- refactorings B3-1 / B3-3 / B3-6 (benign) and their breaking counterparts
+    V("step look-up over itertools.chain(args, kwargs.values()) with a flat guard", REC_FILE, DECORATOR, _STEP_LOOKUP,
+      "        if (step := next((arg for arg in itertools.chain(args, kwargs.values()) if isinstance(arg, Step)), None)) is None:\n"
+      "            raise ValueError('The wrapped function must take a `Step` object as argument')\n", None, append="import itertools"),
+    V("look-ups as guard clauses on plain locals", REC_FILE, DECORATOR, _STEP_LOOKUP,
+      "        step = next((arg for arg in (*args, *kwargs.values()) if isinstance(arg, Step)), None)\n        if not step:\n"
+      "            raise ValueError('The wrapped function must take a `Step` object as argument')\n", None),
+    V("flat job guard raises when a Job was found", REC_FILE, DECORATOR,
+      "            if (job := next((arg for arg in kwargs.values() if isinstance(arg, Job)), None)) is None:",
+      "            if (job := next((arg for arg in kwargs.values() if isinstance(arg, Job)), None)) is not None:", "R2"),
+    V("flat step guard raises when a Step was found", REC_FILE, DECORATOR, _STEP_LOOKUP,
+      "        if (step := next((arg for arg in (*args, *kwargs.values()) if isinstance(arg, Step)), None)) is not None:\n"
+      "            raise ValueError('The wrapped function must take a `Step` object as argument')\n", "R2"),
+    V("provenance inputs assembled by an extracted module-level helper", FM_FILE, _REC, "inputs=[" + _PROV_INPUTS + "]", "inputs=_provenance_inputs(failed_job, failed_step)", None,
+      append="def _provenance_inputs(job: Job, step: Step):\n    return [" + _PROV_INPUTS.replace("failed_job", "job").replace("failed_step", "step") + "]\n"),
+    V("extracted provenance helper forgets the job's inputs", FM_FILE, _REC, "inputs=[" + _PROV_INPUTS + "]", "inputs=_provenance_inputs(failed_job, failed_step)", "R3",
+      append="def _provenance_inputs(job: Job, step: Step):\n    return [" + _PROV_INPUTS.replace("failed_job", "job").replace("failed_step", "step").replace("*job.inputs.values(), ", "") + "]\n"),
+    V("extracted provenance helper receives another job", FM_FILE, _REC, "inputs=[" + _PROV_INPUTS + "]", "inputs=_provenance_inputs(failed_step)", "R3",
+      append="def _provenance_inputs(step: Step):\n    job = step.workflow\n    return [" + _PROV_INPUTS.replace("failed_job", "job").replace("failed_step", "step") + "]\n"),
+    V("available tokens selected by an if/else statement with a loop and a temporary list", FM_FILE, f"{FM}._inject_tokens", _TOKEN_LIST,
+      _TOKEN_LIST_LOOP % ("port_name in mapper.port_tokens.keys()", "mapper.token_availability[token_id]"), None),
+    V("loop form of the selection with a negated skip", FM_FILE, f"{FM}._inject_tokens", _TOKEN_LIST,
+      "        token_list = ()\n        if port_name in mapper.port_tokens.keys():\n            chosen = []\n            for token_id in mapper.port_tokens[port_name]:\n"
+      "                if not mapper.token_availability[token_id]:\n                    continue\n                chosen.append(mapper.token_instances[token_id])\n"
+      "            token_list = sorted(chosen, key=lambda x: x.tag)\n", None),
+    V("loop form injects the unavailable tokens", FM_FILE, f"{FM}._inject_tokens", _TOKEN_LIST,
+      _TOKEN_LIST_LOOP % ("port_name in mapper.port_tokens.keys()", "not mapper.token_availability[token_id]"), "R4"),
+    V("loop form without an availability test", FM_FILE, f"{FM}._inject_tokens", _TOKEN_LIST,
+      _TOKEN_LIST_LOOP % ("port_name in mapper.port_tokens.keys()", "token_id in mapper.token_instances"), "R4"),
+    V("loop form selects tokens only for unmapped ports", FM_FILE, f"{FM}._inject_tokens", _TOKEN_LIST,
+      _TOKEN_LIST_LOOP % ("port_name not in mapper.port_tokens.keys()", "mapper.token_availability[token_id]"), "R4"),
     V("recover called through a local alias of the manager", REC_FILE, DECORATOR, "await step.workflow.context.failure_manager.recover(job, step, e)",
       "fm = step.workflow.context.failure_manager\n                await fm.recover(job=job, step=step, exception=e)", None),
 ]
